@@ -592,8 +592,12 @@ def rule_stop_tasks_reentrant(ctx):
                     # guard clause: `if self.x is not <read>: return`
                     if isinstance(g, ast.If) and last_await <= g.lineno < n.lineno and g.body and \
                             isinstance(g.body[-1], (ast.Return, ast.Raise, ast.Continue, ast.Break)):
-                        for c in ast.walk(g.test):
-                            if isinstance(c, ast.Compare) and len(c.ops) == 1 and isinstance(c.ops[0], ast.IsNot) and \
+                        tests = [(g.test, False)]
+                        if isinstance(g.test, ast.UnaryOp) and isinstance(g.test.op, ast.Not):
+                            tests = [(g.test.operand, True)]
+                        for c, negated in tests:
+                            want = ast.Is if negated else ast.IsNot
+                            if isinstance(c, ast.Compare) and len(c.ops) == 1 and isinstance(c.ops[0], want) and \
                                     any(isinstance(x, ast.Attribute) and x.attr == attr
                                         for x in [c.left] + c.comparators):
                                 guarded = True
